@@ -95,7 +95,7 @@ def replay(body):
 def run(ctx):
     rng = ctx.rng
     ctx.check_theorems()
-    ctx.check_generated(['blocks', 'klog', 'dcommon'])      # the number of crop buffers (hence the block structure) depends on the buffer itemsize
+    ctx.check_generated(['blocks', 'klog', 'dcommon', 'kcalls', 'kups'])      # the number of crop buffers (hence the block structure) depends on the buffer itemsize
     # (K) argument of the logarithm: Prelog.prelog_code true <dtype> vs exp(log_scale(x)) and exp(log_scale_cropbufs_inplace(x))
     exprs, impl = [], []
     meta = []
